@@ -36,4 +36,24 @@ CHECKS = {
         "real": RIG_L_REAL,
         "stub": RIG_L_STUB,
     },
+    "C03": {
+        "level": "exploration",
+        "quick": {"runs": 3000, "wall_s": 60},
+        "thorough": {"runs": 400000, "wall_s": 1200},
+        "rule": "seeded log shapes (1..n files via the geometry knob, compaction-pointer files, installed-snapshot pointers inside and beyond the log, reopen) x cut points (small offsets, multiples of the index interval +-1, anywhere, beyond the end) x re-appended sizes (shorter / equal / longer than the removed entries) x optional reopen, several rounds per run; oracle after every step: entries below the cut unchanged, entries at or above it unreadable, append at the cut accepted, payloads of removed entries never returned, the same after reopen; non-trivial = at least one truncation removed entries and the store was reopened; distinct = distinct event-log hash",
+        "probes": ["truncate_nonempty", "pointer_applied", "install_pointer_inside", "install_pointer_ahead", "reopen_multi_file", "reopen_3plus_files", "record_gt_1024"],
+        "assumptions": ASSUME_DISK + ["InstallPointer emulates FileStore::finalize_snapshot_installation's two log-manager requests with async-raft's delete_through rule (Rig-L has no state machine); the real call is exercised by C08 on Rig-N"],
+        "real": RIG_L_REAL,
+        "stub": RIG_L_STUB,
+    },
+    "C05": {
+        "level": "exploration",
+        "quick": {"runs": 4000, "wall_s": 60},
+        "thorough": {"runs": 600000, "wall_s": 1200},
+        "rule": "seeded interleavings of save-hard-state, membership and address updates (alternating long and short records), the other writers of the same file (roll-over SaveLogs, compaction SaveSnapshots, last-applied header), clean reopen and kill -9 placed immediately after an acknowledgement (no observation in between) under swarm-chosen disk latencies; register oracle: every read in the same or any later incarnation returns the last acknowledged (term, vote, membership, addresses); after a kill the value must be one of the versions acknowledged since the last version known durable, and anything older than the last acknowledged version is reported as clause ack_before_durable; non-trivial = reopened at least once with >= 2 log entries; distinct = distinct event-log hash",
+        "probes": ["crash_now", "ack_before_durable_seen", "reopen_catalogue_le_20", "pointer_applied", "reopen_multi_file"],
+        "assumptions": ASSUME_DISK + ["no short writes in runs that contain kills (a kill between the two halves would be a torn write, outside the crash model)", "after a kill the log itself is not compared in C05 (C04's subject)"],
+        "real": RIG_L_REAL,
+        "stub": RIG_L_STUB,
+    },
 }
